@@ -16,8 +16,12 @@ def t3(rep, tier, seed):
         pl = []
         for _ in range(40 if tier == "quick" else 400):
             nb = rng.randint(3, 30); B = rng.choice([20, 60, 100])
-            pl.append({"algo": algo, "values": T.planted_perfect_packing(rng, nb, B, 4), "B": B, "opt": nb})
-        rep.add(H.run_case(f"C09/T3/{algo}/planted-bounds", f"prtpy.packing::{algo}", T.c09_planted_case, pl, "planted perfect packings, 3..30 bins, <=4 items per bin"))
+            pl.append({"algo": algo, "values": T.planted_perfect_packing(rng, nb, B, 4), "B": B, "opt": nb,
+                       "fmt": ("list", "names", "names:asc", "names:desc", "names:valley", "names:pyramid")[len(pl) % 6]})
+        for d in list(pl[::5]):
+            for f in ("names:inorder-desc", "names:inorder-asc"):
+                pl.append(dict(d, values=sorted(d["values"]), fmt=f))       # smallest first (the worst arrival order), names monotone in input order
+        rep.add(H.run_case(f"C09/T3/{algo}/planted-bounds", f"prtpy.packing::{algo}", T.c09_planted_case, pl, "planted perfect packings, 3..30 bins, <=4 items per bin; presented as a list, as names in pseudo-random order, and as names ordered against the values (ascending, descending, valley, pyramid), and smallest-first with names monotone in input order"))
 
 
 def run(rep, tier, seed):
